@@ -142,9 +142,9 @@ class Check:
             rec['assertions'] = len(real); rec['assertions_failed'] = len(failed)
             rec['assertion_texts'] = sorted(set(p['desc'] for p in real if not p['desc'].startswith('unwinding assertion')))[:60]
             rec['unwinding_assertions'] = sum(1 for p in real if (p['desc'] or '').startswith('unwinding assertion'))
-            wit_ok = (not q.expect_witness) or (wit and all(p['status'] == 'FAILURE' for p in wit))
+            wit_ok = (not q.expect_witness) or (wit and any(p['status'] == 'FAILURE' for p in wit))
             expf_ok = all(p['status'] == 'FAILURE' for p in expf) and len(set(p['desc'] for p in expf)) == len(set(q.expect_fail))
-            rec['witness_reached'] = bool(wit and all(p['status'] == 'FAILURE' for p in wit))
+            rec['witness_reached'] = bool(wit and any(p['status'] == 'FAILURE' for p in wit))
             # differential validation on the witness trace
             wvec = None
             for p in wit:
